@@ -63,8 +63,8 @@ func (c07) Units(tier string, seed int64) ([]core.Unit, error) {
 		if !strings.HasPrefix(cfg.Op, "font") {
 			continue
 		}
-		if o.NaturalFail {
-			continue
+		if o.NaturalFail || cfg.Rel == ops.RelDangling {
+			continue // a dangling link is not a "previous representation" (C06's relation)
 		}
 		u := C07Unit{Cfg: cfg, PrefixCap: 4, Seed: int64(rng.Uint64() >> 1), AbsorbedFaults: 10}
 		if tier != "quick" {
@@ -621,7 +621,7 @@ func (c07) RunUnit(raw core.Unit, tier string, seed int64) core.UnitResult {
 		case "read", "pread", "open", "stat", "lstat", "fstat":
 			continue
 		}
-		cands = append(cands, simfs.Fault{Addr: e.Addr(), Kind: simfs.KErr, Errno: int(simfs.ErrnosFor(e.Op)[0]), Seq: e.Seq})
+		cands = append(cands, simfs.Fault{Addr: e.Addr(), Kind: simfs.KErr, Errno: int(simfs.ErrnoAt(e.Op, e.Seq)), Seq: e.Seq})
 	}
 	rng := rand.New(rand.NewPCG(uint64(u.Seed), 7))
 	if u.AbsorbedFaults > 0 && len(cands) > u.AbsorbedFaults {
